@@ -45,46 +45,43 @@ def Classes.isWord (cc : Classes) (c : Nat) : Bool := if c < 128 then asciiWord 
 /-- `\s` -/
 def Classes.isSpace (cc : Classes) (c : Nat) : Bool := if c < 128 then asciiSpace c else cc.space c
 
-/-! ## `unicode_escape` encoder (CPython `PyUnicode_AsUnicodeEscapeString`) -/
+/-! ## hexadecimal digits -/
 
 /-- lower-case hexadecimal digit -/
 def hexDigit (d : Nat) : Nat := if d < 10 then 48 + d else 87 + d
 
-def hex2 (c : Nat) : Str := [hexDigit (c / 16 % 16), hexDigit (c % 16)]
 def hex4 (c : Nat) : Str := [hexDigit (c / 4096 % 16), hexDigit (c / 256 % 16), hexDigit (c / 16 % 16), hexDigit (c % 16)]
-def hex8 (c : Nat) : Str :=
-  [hexDigit (c / 268435456 % 16), hexDigit (c / 16777216 % 16), hexDigit (c / 1048576 % 16), hexDigit (c / 65536 % 16),
-   hexDigit (c / 4096 % 16), hexDigit (c / 256 % 16), hexDigit (c / 16 % 16), hexDigit (c % 16)]
-
-/-- one code point of `s.encode('unicode_escape')` -/
-def unicodeEscapeChar (c : Nat) : Str :=
-  if c = 9 then cp% "\\t"
-  else if c = 10 then cp% "\\n"
-  else if c = 13 then cp% "\\r"
-  else if c = 92 then cp% "\\\\"
-  else if c < 32 || (127 ≤ c && c < 256) then 92 :: 120 :: hex2 c      -- \xNN
-  else if c < 256 then [c]                                              -- printable ASCII
-  else if c < 65536 then 92 :: 117 :: hex4 c                            -- \uNNNN
-  else 92 :: 85 :: hex8 c                                               -- \UNNNNNNNN
-
-/-- `s.encode('unicode_escape').decode('utf-8')` (the encoder's output is ASCII) -/
-def unicodeEscape (s : Str) : Str := s.flatMap unicodeEscapeChar
-
 /-! ## `escape_parsable` (utils/java.py) -/
 
-/-- `_parsable_str.fullmatch(s)` for `_parsable_str = re.compile(r'[_a-zA-Z][\w_]*')` -/
-def isParsable (cc : Classes) : Str → Bool
+/-- `_escape_parsable_char(c)`: only the escapes the IR lexer admits in a backtick literal — `\\ \t \n \r` and `\uXXXX`, one
+per UTF-16 code unit (a surrogate pair for a code point above U+FFFF); printable ASCII (the backtick too: the caller escapes
+it) stays -/
+def parsableEscapeChar (c : Nat) : Str :=
+  if c = 92 then cp% "\\\\"
+  else if c = 9 then cp% "\\t"
+  else if c = 10 then cp% "\\n"
+  else if c = 13 then cp% "\\r"
+  else if 32 ≤ c ∧ c < 127 then [c]
+  else if c < 65536 then 92 :: 117 :: hex4 c
+  else 92 :: 117 :: (hex4 (55296 + (c - 65536) / 1024) ++ 92 :: 117 :: hex4 (56320 + (c - 65536) % 1024))
+
+/-- `''.join(map(_escape_parsable_char, s))` -/
+def parsableEscape (s : Str) : Str := s.flatMap parsableEscapeChar
+
+/-- `_parsable_str.fullmatch(s)` for `_parsable_str = re.compile(r'[_a-zA-Z][_a-zA-Z0-9]*')` -/
+def isParsable : Str → Bool
   | [] => false
-  | c :: r => (c == 95 || asciiLetter c) && r.all fun d => cc.isWord d || d == 95
+  | c :: r => (c == 95 || asciiLetter c) && r.all asciiWord
 
 /-- `.replace('`', '\\`')` -/
 def replaceBacktick (s : Str) : Str := s.flatMap fun c => if c = 96 then [92, 96] else [c]
 
 /-- `escape_parsable(s)` -/
-def escapeParsable (cc : Classes) (s : Str) : Str :=
-  if isParsable cc s then s else 96 :: (replaceBacktick (unicodeEscape s) ++ [96])
+def escapeParsable (s : Str) : Str :=
+  if isParsable s then s else 96 :: (replaceBacktick (parsableEscape s) ++ [96])
 
-/-! ## `unescape_parsable` (utils/java.py): `bytes(s.replace('\\`', '`'), 'utf-8').decode('unicode_escape')` -/
+/-! ## `unescape_parsable` (utils/java.py): `bytes(s.replace('\\`', '`'), 'utf-8').decode('unicode_escape')`, then
+`.encode('utf-16-le', 'surrogatepass').decode('utf-16-le', 'surrogatepass')` -/
 
 /-- `.replace('\\`', '`')`: leftmost non-overlapping occurrences of backslash-backtick -/
 def unreplaceBacktick : Str → Str
@@ -170,8 +167,17 @@ def decodeLoop : Nat → List Nat → Option Str
 /-- `bs.decode('unicode_escape')` -/
 def unicodeEscapeDecode (bs : List Nat) : Option Str := decodeLoop (bs.length + 1) bs
 
+/-- `.encode('utf-16-le', 'surrogatepass').decode('utf-16-le', 'surrogatepass')`: a high surrogate followed by a low surrogate
+becomes the code point they encode; lone surrogates stay -/
+def recombine : Str → Str
+  | [] => []
+  | [c] => [c]
+  | h :: l :: r =>
+    if 55296 ≤ h ∧ h < 56320 ∧ 56320 ≤ l ∧ l < 57344 then (65536 + (h - 55296) * 1024 + (l - 56320)) :: recombine r
+    else h :: recombine (l :: r)
+
 /-- `unescape_parsable(s)` -/
-def unescapeParsable (s : Str) : Option Str := (utf8 (unreplaceBacktick s)).bind unicodeEscapeDecode
+def unescapeParsable (s : Str) : Option Str := ((utf8 (unreplaceBacktick s)).bind unicodeEscapeDecode).map recombine
 
 /-! ## `escape_id` / `escape_str` (utils/misc.py) -/
 
@@ -190,7 +196,9 @@ def upperHex4 (n : Nat) : Str :=
 
 /-- one character of `escape_str(s, backticked=True)` -/
 def escapeStrChar (c : Nat) : Str :=
-  if c > 127 then 92 :: 117 :: upperHex4 c
+  if c > 65535 then
+    92 :: 117 :: (upperHex4 (55296 + (c - 65536) / 1024) ++ 92 :: 117 :: upperHex4 (56320 + (c - 65536) % 1024))
+  else if c > 127 then 92 :: 117 :: upperHex4 c
   else if c < 32 then
     if c = 8 then cp% "\\b" else if c = 10 then cp% "\\n" else if c = 9 then cp% "\\t"
     else if c = 12 then cp% "\\f" else if c = 13 then cp% "\\r"
@@ -200,14 +208,14 @@ def escapeStrChar (c : Nat) : Str :=
   else if c = 92 then cp% "\\\\"
   else [c]
 
-/-- `re.fullmatch(r'[_a-zA-Z]\w*', s)` -/
-def isPlainId (cc : Classes) : Str → Bool
+/-- `re.fullmatch(r'[_a-zA-Z][_a-zA-Z0-9]*', s)` -/
+def isPlainId : Str → Bool
   | [] => false
-  | c :: r => (c == 95 || asciiLetter c) && r.all cc.isWord
+  | c :: r => (c == 95 || asciiLetter c) && r.all asciiWord
 
 /-- `escape_id(s)` -/
-def escapeId (cc : Classes) (s : Str) : Str :=
-  if isPlainId cc s then s else 96 :: (s.flatMap escapeStrChar ++ [96])
+def escapeId (s : Str) : Str :=
+  if isPlainId s then s else 96 :: (s.flatMap escapeStrChar ++ [96])
 
 /-! ## Types and their printed forms -/
 
@@ -245,7 +253,7 @@ def str (cc : Classes) : HType → Str
   | .call => cp% "call"
   | .str => cp% "str"
   | .rngState => cp% "rng_state"
-  | .locus rg => cp% "locus<" ++ escapeParsable cc rg ++ cp% ">"
+  | .locus rg => cp% "locus<" ++ escapeParsable rg ++ cp% ">"
   | .array t => cp% "array<" ++ str cc t ++ cp% ">"
   | .ndarray t n => cp% "ndarray<" ++ str cc t ++ cp% ", " ++ natDigits n ++ cp% ">"
   | .set t => cp% "set<" ++ str cc t ++ cp% ">"
@@ -257,8 +265,8 @@ def str (cc : Classes) : HType → Str
 /-- `', '.join('{}: {}'.format(escape_parsable(f), str(t)) for f, t in self.items())` -/
 def strFields (cc : Classes) : List (Str × HType) → Str
   | [] => []
-  | [(n, t)] => escapeParsable cc n ++ cp% ": " ++ str cc t
-  | (n, t) :: f :: r => escapeParsable cc n ++ cp% ": " ++ str cc t ++ cp% ", " ++ strFields cc (f :: r)
+  | [(n, t)] => escapeParsable n ++ cp% ": " ++ str cc t
+  | (n, t) :: f :: r => escapeParsable n ++ cp% ": " ++ str cc t ++ cp% ", " ++ strFields cc (f :: r)
 /-- `", ".join([str(t) for t in self.types])` -/
 def strTypes (cc : Classes) : List HType → Str
   | [] => []
@@ -278,7 +286,7 @@ def parsable (cc : Classes) : HType → Str
   | .call => cp% "Call"
   | .str => cp% "String"
   | .rngState => cp% "RNGState"
-  | .locus rg => cp% "Locus(" ++ escapeParsable cc rg ++ cp% ")"
+  | .locus rg => cp% "Locus(" ++ escapeParsable rg ++ cp% ")"
   | .array t => cp% "Array[" ++ parsable cc t ++ cp% "]"
   | .ndarray t n => cp% "NDArray[" ++ parsable cc t ++ cp% "," ++ natDigits n ++ cp% "]"
   | .set t => cp% "Set[" ++ parsable cc t ++ cp% "]"
@@ -289,8 +297,8 @@ def parsable (cc : Classes) : HType → Str
   | .interval t => cp% "Interval[" ++ parsable cc t ++ cp% "]"
 def parsableFields (cc : Classes) : List (Str × HType) → Str
   | [] => []
-  | [(n, t)] => escapeParsable cc n ++ cp% ":" ++ parsable cc t
-  | (n, t) :: f :: r => escapeParsable cc n ++ cp% ":" ++ parsable cc t ++ cp% "," ++ parsableFields cc (f :: r)
+  | [(n, t)] => escapeParsable n ++ cp% ":" ++ parsable cc t
+  | (n, t) :: f :: r => escapeParsable n ++ cp% ":" ++ parsable cc t ++ cp% "," ++ parsableFields cc (f :: r)
 def parsableTypes (cc : Classes) : List HType → Str
   | [] => []
   | [t] => parsable cc t
@@ -534,8 +542,9 @@ def dtype (cc : Classes) (s : Str) : Option HType :=
 
 /-! ## Well-formed types: what Python can construct -/
 
-/-- a Python `str`: every element is a code point -/
-def ValidStr (s : Str) : Prop := ∀ c ∈ s, c < 1114112
+/-- a Python `str` of Unicode scalar values: every element is a code point and none is a surrogate (a name with two adjacent
+lone surrogates would be read back as one astral character) -/
+def ValidStr (s : Str) : Prop := ∀ c ∈ s, c < 1114112 ∧ ¬ (55296 ≤ c ∧ c < 57344)
 
 mutual
 /-- names are Python strings and the field names of a struct are distinct (`tstruct(**field_types)`) -/
